@@ -67,14 +67,16 @@ func (p *VipnodePool) CloseRemote(remote jsonrpc2.Service) error {
 	p.mu.Lock()
 	defer p.mu.Unlock()
 
-	nodeID, ok := p.remoteNodeLookup[remote]
-	if !ok {
-		// Nothing to clean up
-		return nil
-	}
-
 	delete(p.remoteNodeLookup, remote)
-	delete(p.remoteHosts, nodeID)
+
+	// Unregister every host that is registered on this connection, and only
+	// those: a host that has since reconnected on another connection keeps
+	// its new registration.
+	for nodeID, service := range p.remoteHosts {
+		if service == remote {
+			delete(p.remoteHosts, nodeID)
+		}
+	}
 
 	return nil
 }
